@@ -713,3 +713,138 @@ pub fn c18(case_seed: u64, acc: &mut Acc) {
         },
     );
 }
+
+// ----------------------------------------------------------------------------------- C19
+
+pub const META_C19: Meta = Meta {
+    id: "C19",
+    level: "exploration",
+    rule: "Cases from profile `layout-lines`: 0-5 blank lines before the header; after it any mix of blank lines, comment-only lines, trailing comments and ragged indentation; LF, CRLF and mixed endings; rows at depth 0-4, repeat rows, rows right after `end loop`, last line with and without newline. The printer records the 1-based line on which it prints each row item; the reference says which row item produces the k-th yielded row; every DataRow.line must equal that recorded line (the same for all X/C expansions and loop iterations). 40% of the cases are additionally embedded as a Testcase in a generated .dig document (entities / CDATA, indentation varied) and loaded through dig::File::parse(..).load_test(0), and 30% of the static ones are iterated through try_iter_static: lines must be the same, relative to the test's own source. Non-trivial = >= 1 blank or comment line above a row and (a row at depth >= 1 or a repeat row); distinct by source text.",
+    assumptions: &["reference interpreter decides which source row each yielded row comes from"],
+    quick_cases: 30_000,
+    thorough_cases: 1_000_000,
+    floor: 500,
+};
+
+pub fn profile_lines() -> GenCfg {
+    let mut c = super::c01::profile();
+    c.w_blank = 14;
+    c.w_comment = 12;
+    c.w_repeat = 12;
+    c.w_in = [45, 30, 8, 3, 8];
+    c.one_bit_inputs = 400;
+    c
+}
+
+pub fn c19(case_seed: u64, acc: &mut Acc) {
+    use crate::xmlgen::*;
+    let mut r = Prng::new(case_seed);
+    let cfg = profile_lines();
+    let mut case = gen::generate(&mut r, &cfg);
+    // layout stress
+    case.layout_opts.leading_blank = r.below(6);
+    case.layout_opts.eol = r.below(3) as u8;
+    case.layout_opts.trailing_comments = *r.pick(&[0, 200, 500]);
+    case.layout_opts.indent = r.below(4) as u8;
+    case.layout_opts.trailing_newline = r.chance(1, 2);
+    let ran = run_oracles(
+        &case,
+        case_seed,
+        "gen",
+        acc,
+        &[o_accepted, |_c, r| diff_items(&r.pr, &r.rf, &r.real, Aspects { lines: true, kinds: true, ..Default::default() })],
+        |c, ran| {
+            let first_row_line = ran.pr.row_lines.values().min().copied().unwrap_or(0);
+            let hdr_line = c.layout_opts.leading_blank + 1;
+            let mut nested_or_repeat = false;
+            walk_items(&c.program.items, 0, &mut |it, d| {
+                if matches!(it, Item::Repeat(..)) || (matches!(it, Item::Row(..)) && d >= 1) {
+                    nested_or_repeat = true
+                }
+            });
+            let blank_or_comment_above = {
+                let lines: Vec<&str> = ran.pr.text.lines().collect();
+                let last_row = ran.pr.row_lines.values().max().copied().unwrap_or(0);
+                lines.iter().enumerate().any(|(i, l)| i + 1 > hdr_line && i + 1 < last_row && (l.trim().is_empty() || l.trim_start().starts_with('#')))
+            };
+            let _ = first_row_line;
+            nested_or_repeat && blank_or_comment_above && ran.rf.stats.rows >= 1
+        },
+        |c, ran, acc| {
+            acc.tag_n("crlf_or_mixed_line_endings", (c.layout_opts.eol > 0) as u64);
+            acc.tag_n("blank_lines_before_header", (c.layout_opts.leading_blank > 0) as u64);
+            acc.tag_n("no_trailing_newline", !c.layout_opts.trailing_newline as u64);
+            acc.event("row_lines_compared", ran.rf.stats.rows as u64);
+        },
+    );
+    let Some(ran) = ran else { return };
+    if ran.rf.construct_err.is_some() || !ran.real.bind.is_ok() {
+        return;
+    }
+    // the same test loaded from a .dig document: lines relative to the test's own source.
+    // (XML parsers normalise a literal CR LF to LF, so CRs are written as &#13;.)
+    // Bidirectional signals cannot be written as pins (the loader infers them), and a declared
+    // virtual signal used as a header column is refused by the loader ("not found in circuit" -
+    // recorded in DESIGN.md as an observation outside the given properties): skip those.
+    let embeddable = !case.signals.iter().any(|s| matches!(s.kind, SigKind::Bidir(_)) || s.name.ends_with("_out"))
+        && !case.program.declares().iter().any(|d| case.program.header.iter().any(|h| h == d.0));
+    if r.chance(500, 1000) && embeddable {
+        let pins: Vec<Pin> = case
+            .signals
+            .iter()
+            .map(|s| Pin {
+                kind: if s.is_input() { PinKind::In } else { PinKind::Out },
+                label: Some(s.name.clone()),
+                bits: BitsSpec::N(s.bits),
+                default: match s.default() {
+                    Some(InVal::V(v)) => DefSpec::Val(Some(v.to_string()), Some("false".into())),
+                    Some(InVal::Z) => DefSpec::Val(Some("0".into()), Some("true".into())),
+                    None => DefSpec::Absent,
+                },
+            })
+            .collect();
+        let circ = Circuit { pins, tests: vec![TestDesc { label: Some("t".into()), source: ran.pr.text.clone() }] };
+        let st = XmlStyle::random(&mut r);
+        let doc = render(&circ, &st, &mut r);
+        acc.evaluations += 1;
+        let loaded = guarded(|| digital_test_runner::dig::File::parse(&doc).map_err(|e| err_chain(&e)).and_then(|f| f.load_test(0).map_err(|e| err_chain(&e))));
+        match loaded {
+            Ok(Ok(tc)) => {
+                let run = run_bound(&tc, &case.signals, &case.script, &RunOpts { max_steps: ran.rf.items.len() + 4, probe_after_end: 0, stop_at_error: true, seed: Some(case.rng_seed) });
+                let got: Vec<usize> = run.3.iter().filter_map(|s| if let RealItem::Row(r) = &s.item { Some(r.line) } else { None }).collect();
+                let want: Vec<usize> = ran.real.steps.iter().filter_map(|s| if let RealItem::Row(r) = &s.item { Some(r.line) } else { None }).collect();
+                if got != want {
+                    acc.violation(case_seed, "dig", Finding::new("line-via-dig", format!("lines via .dig {:?}, direct {:?}; ctor {:?} first {:?}", got, want, run.0, run.3.first().map(|s| &s.item))), json!({"document": doc}));
+                    return;
+                }
+                acc.tag("lines_compared_through_dig_document");
+            }
+            Ok(Err(e)) => {
+                acc.violation(case_seed, "dig", Finding::new("dig-embedding-refused", e), json!({"document": doc}));
+                return;
+            }
+            Err(p) => {
+                acc.violation(case_seed, "dig", Finding::new(p.signature(), format!("{p:?}")), json!({"document": doc}));
+                return;
+            }
+        }
+    }
+    // static iteration reports the same lines
+    if crate::scope::analyse(&case.program).output_reads.is_empty() && r.chance(300, 1000) {
+        let (_, parsed) = parse(&ran.pr.text);
+        if let Some(p) = parsed {
+            if let (_, Some(tc)) = bind(p, &case.signals) {
+                let lines = guarded(|| tc.try_iter_static().map(|it| it.take(500).filter_map(|x| x.ok()).map(|x| x.line).collect::<Vec<_>>()));
+                acc.evaluations += 1;
+                let want: Vec<usize> = ran.real.steps.iter().filter_map(|s| if let RealItem::Row(r) = &s.item { Some(r.line) } else { None }).collect();
+                if let Ok(Ok(got)) = lines {
+                    if got != want {
+                        acc.violation(case_seed, "static", Finding::new("line-via-static", format!("static lines {:?}, dynamic {:?}", got, want)), case_json(&case, &ran.pr));
+                        return;
+                    }
+                    acc.tag("lines_compared_through_static_iterator");
+                }
+            }
+        }
+    }
+}
